@@ -1,3 +1,3 @@
-from . import grayconst, primpolys
+from . import grayconst, polarrank, primpolys
 
-ALL = [primpolys.generate, grayconst.generate]
+ALL = [primpolys.generate, grayconst.generate, polarrank.generate]
